@@ -74,7 +74,7 @@ def extract(text):
             out.setdefault('types', {})[name] = ty
     for m in re.finditer(r'^\s*#\s*define\s+(YY_[A-Z_0-9]+)\s+\(?\s*(-?\d+)\s*\)?\s*$', text, re.M):
         out['consts'].setdefault(m.group(1), int(m.group(2)))
-    for m in re.finditer(r'^\s*(?:static\s+)?const\s+\w+\s+(YY_[A-Z_0-9]+)\s*=\s*(-?\d+)\s*;', text, re.M):
+    for m in re.finditer(r'^\s*(?:static\s+)?const\s+\w+(?:\s+\w+)*\s+(YY_[A-Z_0-9]+)\s*=\s*(-?\d+)\s*;', text, re.M):
         out['consts'].setdefault(m.group(1), int(m.group(2)))
     return out
 
